@@ -4,6 +4,9 @@
 # 2: anything else (build problem, sanitizer report, watchdog) - inconclusive, never a violation.
 ID="$1"
 RUNS="${VERIF_FUZZ_RUNS:-1500000}"
+# the campaign ends after RUNS executions or BUDGET seconds, whichever comes first; both are a normal end (exit 0).
+# The 1800 s `timeout` below is only a watchdog for a wedged process.
+BUDGET="${VERIF_FUZZ_SECONDS:-600}"
 SEED="${VERIF_SEED:-1592639710}"
 [ "$SEED" = "0" ] && SEED=1
 FZ=/verif/fuzz
@@ -22,19 +25,19 @@ rm -rf "$CORPUS" "$ART"; mkdir -p "$CORPUS" "$ART"
 OUT="$FZ/artifacts/$ID/campaign.log"
 T0=$(date +%s)
 VCHECK_FUZZ_PROP="$ID" timeout -k 10 1800 "$FZ/target/x86_64-unknown-linux-gnu/release/props" "$CORPUS" \
-  -runs="$RUNS" -seed="$SEED" -len_control=0 -max_len=4096 -timeout=60 -rss_limit_mb=4096 \
+  -runs="$RUNS" -max_total_time="$BUDGET" -seed="$SEED" -len_control=0 -max_len=4096 -timeout=60 -rss_limit_mb=4096 \
   -artifact_prefix="$ART" -print_final_stats=1 >"$OUT" 2>&1
 RC=$?
 T1=$(date +%s)
 EXECS=$(grep -a 'stat::number_of_executed_units' "$OUT" | awk '{print $2}')
 NCORP=$(ls "$CORPUS" | wc -l)
-python3 - "$ID" "$RC" "${EXECS:-0}" "$NCORP" "$SEED" "$((T1-T0))" <<'PY'
+python3 - "$ID" "$RC" "${EXECS:-0}" "$NCORP" "$SEED" "$((T1-T0))" "$RUNS" "$BUDGET" <<'PY'
 import json,sys
 pid,rc,execs,ncorp,seed,secs=sys.argv[1:7]
 p=f'/verif/evidence/{pid}.json'
 try:
     e=json.load(open(p))
-    e['coverage']['fuzz_campaign']={'engine':'libFuzzer via cargo-fuzz, AddressSanitizer, target props','executions':int(execs),'corpus_files_after':int(ncorp),'libfuzzer_seed':int(seed),'exit_status':int(rc),'wall_s':int(secs),
+    e['coverage']['fuzz_campaign']={'engine':'libFuzzer via cargo-fuzz, AddressSanitizer, target props','executions':int(execs),'corpus_files_after':int(ncorp),'libfuzzer_seed':int(seed),'exit_status':int(rc),'wall_s':int(secs),'budget':'-runs=%s -max_total_time=%s, whichever first' % (sys.argv[7], sys.argv[8]),
       'note':'byte 1 selects the sub-check, the rest is the raw u32 vector; the semantic oracles run inside the target'}
     e['coverage']['evaluations']=e['coverage']['evaluations']+int(execs)
     json.dump(e,open(p,'w'),indent=1)
